@@ -98,7 +98,7 @@ impl Ctx {
             sim_time_us: 0,
             max_violations: 8,
             heap_a: crate::heap_bound_a(),
-            heap_b: 65536,
+            heap_b: 1 << 20,
             heap_margin: (0, ""),
             counters: Vec::new(),
         }
